@@ -178,7 +178,7 @@ CHECKS['C17'] = dict(
           'EvolveAppTask.execute and _create_models, lifted to all executions (any task count, a fault in any call) by '
           'reach_sound: evolving at most once and before any work; exactly one evolved after _save_project_sig on a '
           'normal return; exactly one evolving_failed and no evolved on failure; applying/applied and creating/created '
-          'bracket the SQL and are never doubled; C17_source_saved_all ties the saved set to the source. On the real code receivers on every public signal are interleaved '
+          'bracket the SQL and are never doubled; leaving the executor\'s block raises when its last transaction cannot be finished (C17_executor_exit_propagates over the skeleton of SQLExecutor.__exit__); C17_source_saved_all ties the saved set to the source. On the real code receivers on every public signal are interleaved '
           'with the statement trace for fresh installs, upgrades, nothing-to-do runs and a failure at every write index; '
           'payload equality of the pairs, no applied/created after the failing statement, lock value restored.'),
     design='§5 C17',
